@@ -21,7 +21,7 @@ ASSUMPTIONS = ['Python format() is the text reference; a bare width left-justifi
                'ESC in the base text is grey']
 MIN_EVAL = 400
 CASES = {'quick': 800, 'thorough': 10800}
-WEIGHTS = {'apply': 12, 'pad': 10, 'format': 8, 'to_str': 2, 'getitem': 2, 'add': 2, 'remove': 2, 'query': 0.1,
+WEIGHTS = {'assign_str': 1.5, 'convert': 2, 'apply': 12, 'pad': 10, 'format': 8, 'to_str': 2, 'getitem': 2, 'add': 2, 'remove': 2, 'query': 0.1,
            'find_settings': 0.1, 'settings_at': 0.1}
 
 SPEC_RE = re.compile(r'(?:(?P<fill>.)?(?P<flag>[+-])?(?P<align>[<>^]))?(?P<width>[0-9]*)\Z', re.S)
@@ -105,9 +105,7 @@ class PadContract(Contract):
             extend = call.arg(3, 'extend_formatting', True) if call.cls == 'AnsiString' else True
         if not isinstance(width, int) or not isinstance(fill, str) or len(fill) != 1:
             return
-        if O.has_esc(o.text):
-            ctx.grey('esc-in-text')
-            return
+        esc = O.has_esc(o.text) or fill == '\x1b'
         if exc is not None:
             ctx.ev('pad')
             ctx.violation('pad-raised', {'source': o.describe(), 'error': repr(exc)}, call, mech='pad-raised:' + name)
@@ -133,6 +131,9 @@ class PadContract(Contract):
             return
         if p.text != exp_text:
             ctx.violation('pad-text', dict(det, expected=exp_text), call, mech='pad-text:' + name)
+            return
+        if esc:
+            ctx.grey('esc-in-text:settings-clauses')     # only the text clause is judged
             return
         rows = expected_rows(o, len(exp_text), left, bool(extend))
         d = O.first_diff_equiv(rows, p.texts)
@@ -292,7 +293,8 @@ def drive(ctx, mon, tier, only_case=None):
     sz = tier_sizes(tier)
 
     def body(rng, ex, case):
-        history(L, rng, ex, rng.randint(1, sz['nops']), sz['maxlen'], 'mixed' if rng.random() < 0.2 else 'wf', WEIGHTS)
+        history(L, rng, ex, rng.randint(1, sz['nops']), sz['maxlen'], 'mixed' if rng.random() < 0.2 else 'wf', WEIGHTS,
+                esc=rng.random() < 0.12)
         for v in ansi_values(L, ex)[-5:]:
             n = len(v.base_str)
             if n > 80:
